@@ -290,6 +290,18 @@ def naming_rule(prog: Program, rep, RID: str):
                             bad.append((acc_loop, a, cnt, kind))
         if n_loops < 2:
             raise AnalysisError(f"{cname}.{m}: accumulator loops of the translator not recognised")
+        # appends to the per-constraint accumulator outside the loop over its elements (e.g. the head of the last edge handled
+        # after the loop) are a different idiom: not judged here
+        for lp in outer:
+            inner_loops = [n for n in ast.walk(lp) if isinstance(n, ast.For) and n is not lp]
+            for s_ in lp.body:
+                for c in ([s_.value] if isinstance(s_, ast.Expr) and isinstance(s_.value, ast.Call) else []):
+                    if isinstance(c.func, ast.Attribute) and c.func.attr == "append" and isinstance(c.func.value, ast.Name) and \
+                            any(isinstance(x, ast.Expr) and isinstance(x.value, ast.Call) and isinstance(x.value.func, ast.Attribute) and x.value.func.attr == "append" and
+                                dotted(x.value.func.value) == c.func.value.id for il in inner_loops for x in ast.walk(il)):
+                        raise AnalysisError(f"{cname}.{m}: `{c.func.value.id}` is appended to both inside and after the loop over the constraint's elements: idiom not recognised")
+                if isinstance(s_, ast.If) and any(isinstance(x, ast.Call) and isinstance(x.func, ast.Attribute) and x.func.attr == "append" for x in ast.walk(s_)) and inner_loops:
+                    raise AnalysisError(f"{cname}.{m}: conditional append after the loop over the constraint's elements: idiom not recognised")
         if bad:
             lp, a, cnt, kind = bad[0]
             rep.violation(RID, key, f"a non-raising path through the loop over `{norm(lp.iter)}` leaves by `{kind}` after {cnt} append(s) to `{a}` "
